@@ -103,7 +103,12 @@ CLAIMED = {
             "agreeing up to t, and: if the prefix raises on one data set it raises the same error on the other); Lean witness that an algo reading row d+1 is not causal. "
             "Correspondence: the model is handed the data TRUNCATED at the clock of each step and must reproduce the real post-state (run-steps and btday protocols on generated backtests, "
             "nested and fixed-income), the window protocols of C14/C15, whole-run. Deciding monitor: metamorphic twin runs of the real code - every supplied value dated after a random cut "
-            "perturbed (NaN, x10, flip, random, dropped rows), all node histories up to the cut bit-identical, over every stock algo of the generator incl. those not modelled in Lean.",
+            "perturbed (NaN, x10, flip, random, dropped rows), all node histories up to the cut bit-identical, over every stock algo of the generator incl. those not modelled in Lean. "
+            "Blotter-driven programs (ReplayTransactions / SimulateRFQTransactions; C04_blotter): the rows a call picks are a mask over the whole frame - select_causal (two frames agreeing on the rows stamped "
+            "up to the cut, in any order and with anything after it, hand the same rows in the same order to every call dated up to the cut), select_sublist / select_perm (frame order kept, which rows "
+            "are picked does not depend on it), window_disjoint + window_covers (on an increasing timeline every row stamped inside the run is executed by exactly one call), blotter_replay_causal "
+            "(the whole replay up to the cut); correspondence `blotter`: every transact of real runs over chronological / security-by-security / reversed / shuffled frames with rows stamped between data "
+            "dates is the model's pick, in order; twin runs perturb or drop the rows after the cut.",
             "DESIGN 7 C04"),
     "C11": ("11 theorems about the run-level model (Bt/Engine/Backtest.lean): Backtest.run with its has_run guard is idempotent (`run_idem`), a finished backtest is never "
             "touched again, the flag is set also when the run raised, constructor arguments are kept; for every session - any number of backtests deep-copied from one template, any "
